@@ -151,7 +151,7 @@ Proof.
   assert (Hu : user_ev e = true -> Forall settled (keys s1)).
   { unfold s1. intros ->. apply settle_all_settled. }
   clearbody s1. clear Hi0 s.
-  destruct (strict_ev e && any_needs_free s1); [discriminate|].
+  destruct (strict_ev e && blocked s1); [discriminate|].
   destruct e.
   - (* EKeyNew *)
     destruct (Nat.eqb k (length (keys s1))); [|discriminate].
@@ -387,7 +387,7 @@ Theorem no_use_after_free s e k x :
   touches e k -> nth_error (keys s) k = Some x -> freed x = true -> step s e = None.
 Proof.
   intros Ht Hk Hf. unfold step.
-  destruct (strict_ev e && any_needs_free (if user_ev e then settle_all s else s)); [reflexivity|].
+  destruct (strict_ev e && blocked (if user_ev e then settle_all s else s)); [reflexivity|].
   destruct Ht as [->|[->|[->|[->|[[ok ->]|[->|[->|[->|[->|[->|[->| ->]]]]]]]]]]];
     cbn [user_ev]; unfold with_key, touch, live; rewrite ?Hk, ?Hf; cbn [negb andb orb];
     try reflexivity.
@@ -407,7 +407,7 @@ Theorem second_result_rejected s k x :
   nth_error (keys s) k = Some x -> 0 < results x -> step s (ESetResult k) = None.
 Proof.
   intros Hk Hr. unfold step. cbn [user_ev strict_ev andb].
-  destruct (any_needs_free s); [reflexivity|]. unfold with_key. rewrite Hk.
+  destruct (blocked s); [reflexivity|]. unfold with_key. rewrite Hk.
   destruct (Nat.ltb_spec 0 (results x)); [|lia]. rewrite orb_true_r. reflexivity.
 Qed.
 
@@ -460,7 +460,7 @@ Theorem cancel_is_local s e k s' j :
 Proof.
   intros Hc Hs Hjk. unfold step in Hs.
   destruct Hc as [[ok ->]| ->]; cbn [user_ev strict_ev andb] in Hs;
-    destruct (any_needs_free s); try discriminate.
+    destruct (blocked s); try discriminate.
   - split; [eapply with_key_other; eauto|].
     unfold with_key in Hs. destruct (nth_error (keys s) k); [|discriminate].
     destruct (touch k0); [|discriminate]. inversion Hs; subst. split; reflexivity.
@@ -529,7 +529,7 @@ Proof.
   pose proof (reachable_inv _ _ _ Hs) as Hi.
   assert (Hi' : Inv (settle_all s)) by (apply settle_all_inv; exact Hi).
   unfold step. cbn [user_ev strict_ev andb].
-  destruct (any_needs_free (settle_all s)); [split; reflexivity|].
+  destruct (blocked (settle_all s)); [split; reflexivity|].
   unfold with_key, settle_all. cbn [keys set_keys].
   rewrite nth_error_map, Hk. cbn [option_map].
   pose proof (nth_error_Forall _ _ _ _ Hi Hk) as Hx.
